@@ -568,28 +568,28 @@ package ir
 //@   assigns nothing
 //@   ensures result != nil && fresh(result) && result.X == x && result.Pred == boxed(pred)
 //@ func NewParam
-//@   props C03
+//@   props C03 C11
 //@   assigns nothing
 //@   ensures result != nil && fresh(result) && result.LocalName == name && result.LocalID == 0 && result.Typ == typ
 //@ func NewBlock
-//@   props C03
+//@   props C03 C11
 //@   assigns nothing
 //@   ensures result != nil && fresh(result) && result.LocalName == name && result.LocalID == 0 && len(result.Insts) == 0 && result.Term == nil
 //@ # (C14: the pointer type of a global is computed at construction, so that observing the global later fills no cache)
 //@ func NewGlobal
-//@   props C03 C14
+//@   props C03 C14 C11
 //@   assigns nothing
 //@   ensures result != nil && fresh(result) && result.GlobalName == name && result.GlobalID == 0 && result.ContentType == contentType && result.Init == nil
 //@   ensures result.Typ != nil && fresh(result.Typ) && result.Typ.ElemType == contentType && result.Typ.AddrSpace == 0
 //@ func NewGlobalDef
-//@   props C03 C14
+//@   props C03 C14 C11
 //@   requires init != nil
 //@   assigns caches
 //@   ensures result != nil && fresh(result) && result.GlobalName == name && result.GlobalID == 0 && result.ContentType == vtype(init) && result.Init == init
 //@   ensures result.Typ != nil && fresh(result.Typ) && result.Typ.ElemType == vtype(init) && result.Typ.AddrSpace == 0
 //@ # an alias has the (pointer) type of its aliasee
 //@ func NewAlias
-//@   props C03
+//@   props C03 C11
 //@   requires aliasee != nil && typeis(vtype(aliasee), "*types.PointerType")
 //@   assigns caches
 //@   ensures result != nil && fresh(result) && result.GlobalName == name && result.GlobalID == 0 && result.Aliasee == aliasee && boxed(result.Typ) == vtype(aliasee)
@@ -603,13 +603,13 @@ package ir
 //@   assigns caches
 //@   ensures boxed(i.Typ) == result && i.Typ == ifuncTy(vtype(i.Resolver))
 //@ func NewIFunc
-//@   props C03
+//@   props C03 C11
 //@   requires resolver != nil && ifuncOK(vtype(resolver))
 //@   assigns caches
 //@   ensures result != nil && fresh(result) && result.GlobalName == name && result.GlobalID == 0 && result.Resolver == resolver && result.Typ == ifuncTy(vtype(resolver))
 //@ # a function's signature lists the parameter types in order; its type is a pointer to the signature
 //@ func NewFunc
-//@   props C03
+//@   props C03 C11
 //@   requires forall(k, 0, len(params), params[k] != nil)
 //@   assigns nothing
 //@   ensures result != nil && fresh(result) && result.GlobalName == name && result.GlobalID == 0 && len(result.Params) == len(params) && forall(k, 0, len(params), result.Params[k] == params[k])
@@ -632,7 +632,7 @@ package ir
 //@ # ---------------------------------------------------------------- C03 (module and function builders) ---
 //@ # A builder appends exactly the entity the plain constructor builds; earlier entries are untouched.
 //@ func (*Func).NewBlock
-//@   props C03
+//@   props C03 C11
 //@   requires f != nil
 //@   assigns f.Blocks
 //@   ensures result != nil && fresh(result) && result.LocalName == name && result.LocalID == 0 && result.Parent == f && len(result.Insts) == 0 && result.Term == nil
